@@ -306,6 +306,23 @@ def check_strand_selectors(ctx, restrict_modules=None):
         xr = _is_reversal_of(x, env, {u(y)})
         yr = _is_reversal_of(y, env, {u(x)})
         if not (xr or yr):
+            # one side is a reverse complement / reversal of SOMETHING ELSE than the other side (e.g. of the text before it was encoded): the two sides of a
+            # strand selector must be one value and its reversal
+            def _rev_of_other(e):
+                n_ = e
+                for _ in range(6):
+                    if isinstance(n_, ast.Name) and n_.id in env:
+                        n_ = env[n_.id]
+                        continue
+                    break
+                if isinstance(n_, ast.Call) and u(n_.func).split(".")[-1] == "get_reverse_complement" and n_.args:
+                    return u(n_.args[0])
+                return None
+            ox, oy = _rev_of_other(x), _rev_of_other(y)
+            if ox or oy:
+                n += 1
+                ctx.ob(fi.where, "strand selector: the reverse-complemented side is derived from the SAME value as the forward side", False,
+                       f"forward {u(y if ox else x)}, reversed from {ox or oy}", key=f"C14-R3|{fi.module.name}|{fi.qualname}")
             continue  # not a forward/reverse pair (e.g. coordinate selection) - handled by C08/C10 orientation rules
         n += 1
         ok = (plus_selects_x and yr and not xr) or ((not plus_selects_x) and xr and not yr)
